@@ -249,7 +249,23 @@ func (ch *c10Chain) verify(md intoto.Metadata, dict map[string]string, v c10Vari
 	}
 	kb, _ := json.Marshal(keys)
 	db, _ := json.Marshal(d)
+	// with a run directory of its own, the inspected directory is an input like the others
+	// (the inspection used here writes its marker elsewhere)
+	dirBefore := ""
+	if v.RunDir {
+		dirBefore = fmt.Sprint(treeListing(ch.finalDir))
+	}
 	obs := Verify(a)
+	if v.RunDir {
+		if after := fmt.Sprint(treeListing(ch.finalDir)); after != dirBefore {
+			obs.Trace = append(obs.Trace, "verification changed the content of the run directory it was asked to inspect: "+dirBefore+" -> "+after)
+			for _, n := range listDir(ch.finalDir) {
+				if n != "keep" && n != "tools" {
+					os.RemoveAll(filepath.Join(ch.finalDir, n))
+				}
+			}
+		}
+	}
 	ka, _ := json.Marshal(keys)
 	da, _ := json.Marshal(d)
 	if string(kb) != string(ka) {
@@ -504,6 +520,20 @@ func c10KeyIDHistory(c *core.Ctx) {
 	c.Obs("key_id_histories_all_accepted", ok)
 }
 
+// treeListing lists the files below dir with their sizes.
+func treeListing(dir string) []string {
+	var out []string
+	filepath.Walk(dir, func(p string, info os.FileInfo, err error) error {
+		if err == nil && p != dir {
+			rel, _ := filepath.Rel(dir, p)
+			out = append(out, fmt.Sprintf("%s(%d)", rel, info.Size()))
+		}
+		return nil
+	})
+	sort.Strings(out)
+	return out
+}
+
 func variantClass(v c10Variant) string {
 	s := fmt.Sprintf("threshold %d, disagreeing surplus link=%v, sublayout=%v, dsse=%v, rundir=%v", v.Threshold, v.Disagree, v.Sublayout, v.DSSE, v.RunDir)
 	if v.LayoutKeys != "" {
@@ -522,7 +552,7 @@ func init() {
 	core.Register(&core.Property{
 		ID:    "C10",
 		Level: "exploration",
-		Rule: "chains biased to the anchors: step with one key-authorized and one certificate-authorized link (threshold 0, 1 and 2; the two links agreeing or disagreeing), certificate constraint lists that are not sorted, rules / expected command / inspection run with {PRODUCT} and {MARK} markers, a link whose artifact path needs cleaning (./bin//app) consumed by a MATCH rule, optionally two steps delegated to sublayouts of two functionaries, two supplied layout keys (both signed / second without a signature / second with a corrupt signature), an inspection executable given by a relative path, three valid links of which one disagrees; the layout has an intermediate CA of its own and the caller passes a list of additional intermediates with spare capacity whose backing array is compared before/after; 2 wrappers x 2 entry points; all histories of length<=2 plus 12 of length 3 (quick) / all of length<=3 plus 30 of length 4 (thorough) over the dictionaries {none, p (accepting), q (rejecting), r (a value containing another parameter's marker)} on ONE in-memory layout object: every outcome (verdict, summary, executed marker) must equal the outcome of a freshly loaded copy, and the serialisation of the layout object (payload, signatures, dumped envelope), of the key map and of the dictionary must be unchanged after every call; two sound chains whose layouts define one key id with different key material are verified alternately (6 verifications, all accepted); each baseline is repeated R=16 (quick) / 64 (thorough) times and each history R/4 times with fresh maps. " +
+		Rule: "chains biased to the anchors: step with one key-authorized and one certificate-authorized link (threshold 0, 1 and 2; the two links agreeing or disagreeing), certificate constraint lists that are not sorted, rules / expected command / inspection run with {PRODUCT} and {MARK} markers, a link whose artifact path needs cleaning (./bin//app) consumed by a MATCH rule, optionally two steps delegated to sublayouts of two functionaries, two supplied layout keys (both signed / second without a signature / second with a corrupt signature), an inspection executable given by a relative path, three valid links of which one disagrees; the layout has an intermediate CA of its own and the caller passes a list of additional intermediates with spare capacity whose backing array is compared before/after; 2 wrappers x 2 entry points; all histories of length<=2 plus 12 of length 3 (quick) / all of length<=3 plus 30 of length 4 (thorough) over the dictionaries {none, p (accepting), q (rejecting), r (a value containing another parameter's marker)} on ONE in-memory layout object: every outcome (verdict, summary, executed marker) must equal the outcome of a freshly loaded copy, and the serialisation of the layout object (payload, signatures, dumped envelope), of the key map and of the dictionary, and (entry point with a run directory of its own) the content of the inspected directory must be unchanged after every call; two sound chains whose layouts define one key id with different key material are verified alternately (6 verifications, all accepted); each baseline is repeated R=16 (quick) / 64 (thorough) times and each history R/4 times with fresh maps. " +
 			"non-trivial = history of length>=2 or R>=2 with >=2 links in a step; distinct = (variant, history)",
 		Assumptions: []string{"the iteration order taken inside the library is not observable; reported are R, the number of distinct outcomes per case and the number of distinct orders a same-sized probe map showed in the same process"},
 		Workers:     func(string) int { return 16 },
